@@ -123,6 +123,17 @@ def run_program(c, rec):
         obj1 = J(**{n: allvals[n] for n in c["fixed_order"]})
         g1 = float(np.asarray(obj1.logd(**{n: allvals[n] for n in obj1.get_parameter_names()})).reshape(-1)[0])
         require(close(g1, got, 1e-9), "conditioning in one step and in several steps disagree", one=g1, several=got)
+    # second use: the joint and its factors must be unaffected by the conditioning that was just done
+    require(close(float(J.logd(**allvals)), full, 1e-12), "the joint evaluates differently after it has been conditioned", before=full,
+            after=float(J.logd(**allvals)))
+    if calls:
+        obj2, _ = condition_program(J, c, rec)
+        g2 = float(np.asarray(obj2.logd(**{n: allvals[n] for n in obj2.get_parameter_names()})).reshape(-1)[0])
+        require(close(g2, got, 1e-12), "running the same conditioning program on the same joint a second time gives a different log-density",
+                first=got, second=g2, calls=calls)
+        # and the first result is still what it was
+        g1b = float(np.asarray(obj.logd(**{n: allvals[n] for n in pn})).reshape(-1)[0])
+        require(close(g1b, got, 1e-12), "the first reduced object changed after the joint was conditioned again", first=got, now=g1b)
     # stacked vector view
     if c["stack"] and isinstance(obj, cuqi.distribution.JointDistribution) and len(pn) >= 1 and hasattr(obj, "_as_stacked") \
             and kind == "JointDistribution":
